@@ -17,6 +17,19 @@ Oracles (numpy / scipy.special only, nothing from dreye, no qhull):
 * chromatic   : own barycentric coordinates b = x/sum(x) placed on the unit-edge regular simplex (b/sqrt(2)); closed
                 form |det B| sqrt(m)/((m-1)! 2^((m-1)/2)) for the hull of m chromaticities and their mixtures.
 * JSD         : own evaluation of 1/2 KL(p||m) + 1/2 KL(q||m) in bits with 0 log 0 = 0, Pinsker lower bound.
+
+Clauses: volume (full-rank clouds), volume_flat (rank-deficient clouds, PCA fallback), mean_width, gamut,
+estimator_fraction, jensen_shannon, volume_extreme (regimes outside the stated assumptions, own mechanism keys).
+
+Mechanisms that fire on the pinned tree (genuine, reported for known_findings.json):
+* gamut-volume-ratio-gt1:lower-rank-subset        k-volume of a chromatically flat subset divided by the d-volume of
+                                                  its superset (also through ReceptorEstimator.compute_gamut with fewer
+                                                  sources than receptors and through at_l1 slices that are flatter)
+* volume-raises:fewer-points-than-dims-minus-one  PCA(n_dims-1) on fewer samples raises ValueError (2 points in 4-D)
+* volume-zero:allclose-early-return               np.allclose(X, X[0]) with default tolerances: offset >= 1e5 extents or
+                                                  extent <= 1e-8 gives volume 0                       (volume_extreme)
+* volume-rank-underestimated:thin-flat-cloud      flat clouds thinner than ~316:1 measured in too few dimensions
+                                                  (same root cause as C17 slice-support:flat-cloud-rank-underestimated)
 """
 import math
 
@@ -73,7 +86,7 @@ M = Monitor(
           "domains, finite bounds; vector pairs of length 1..40 of 11 classes. non-trivial = volume: affine rank >= 2 "
           "and more than rank+1 points; mean width: d >= 2 and >= 3 points; gamut: >= 3 receptors and a positive gamut; "
           "estimator: >= 2 sources; divergence: >= 2 entries and non-proportional inputs. distinct = hash of the inputs"),
-    budget={"quick": (2600, 38), "thorough": (90000, 560)},
+    budget={"quick": (2600, 38), "thorough": (72000, 560)},
     anchors=[("dreye.api.metrics", "compute_volume"), ("dreye.api.metrics", "compute_mean_width"),
              ("dreye.api.metrics", "compute_gamut"), ("dreye.api.metrics", "compute_jensen_shannon_divergence"),
              ("dreye.api.metrics", "compute_jensen_shannon_similarity"),
@@ -95,7 +108,7 @@ M = Monitor(
                             + ["gamut:metric=width", "gamut:metric=volume", "gamut:center=True", "gamut:center=False",
                                "gamut:center_to_neutral=True", "gamut:superset:equal-rank",
                                "gamut:superset:lower-rank", "gamut:at_l1:slice", "gamut:at_l1:one-sided",
-                               "gamut:oracle=closed-form", "gamut:flat:volume-decided"]
+                               "gamut:oracle=closed-form", "gamut:flat:volume-decided", "gamut:at_l1:from-origin"]
                             + ["est:kind=system", "est:kind=spectra", "est:metric=width", "est:metric=volume",
                                "est:lb=pos", "est:lb=zero", "est:chromatic-rank=full", "est:chromatic-rank=lower"]
                             + ["jsd:class=" + k for k in JSD_CLASSES]
@@ -827,6 +840,12 @@ def chk_gamut(inp, c):
             c.cell("gamut:at_l1:one-sided")
             c.require(go == 0, "no point on one side of the requested total: the slice is empty and its gamut 0",
                       mechanism="gamut-slice-one-sided", got=go, at_l1=a_out)
+            # only the zero capture below the total: the slice of conv({0} u X) has the chromaticities of all of X
+            a_lo = 0.5 * float(X.sum(axis=1).min())
+            gzl = Gm(Xz, at_l1=a_lo, relative_to=X.copy())
+            c.cell("gamut:at_l1:from-origin")
+            _close(c, gzl, 1.0, tol, "with only zero captures below the requested total the slice has the chromaticities of "
+                   "the whole cloud (gamut 1 relative to it)", "gamut-slice-from-origin:" + metric, at_l1=a_lo)
             a = inp["a_in"]
             if a is not None:
                 a = float(a)
